@@ -1,10 +1,11 @@
 import Rivaas.Proto
 import Rivaas.Spec.Config
+import Rivaas.Model.ConfigEnv
 /-
 Driver for C14. One case is a history of Loads on one Config (strings hex-encoded):
 
   <id> CFG <schema> <nValidators> <bound> <n> <probe key>… Z <n> { <field> <zero value> }*
-       L <n> { S <n> { F | O <kvs> }*  B ( N | R | K <n> { <field> <value> }* )
+       L <n> { S <n> { F | O <kvs> | E <prefix> <n> <NAME=value>* }*  B ( N | R | K <n> { <field> <value> }* )
                FI <n> { <field> <present> <zero> }*  RD <n> <placement>*
                RC ( 0 | 1 S … B … FI … ) }*          (RC 1: a second Load runs concurrently with these sources)
     => { L <failed> V <kvs> B <n> { <field> <value> }* G <n> <res>* TY <typed getters agree> PN <a Load panicked> RD <n> { <consistent> <kvs> }*
@@ -34,6 +35,11 @@ def pSrc : P SrcResult := do
   let t ← tok
   if t == "F" then pure .fail
   else if t == "O" then SrcResult.ok <$> pKvs
+  else if t == "E" then do
+    -- the environment source: computed by the model from os.Environ() and the prefix
+    let pfx ← str
+    let environ ← list str
+    pure (.ok (envSource pfx environ))
   else failure
 
 def pPair : P (Bytes × Bytes) := do
